@@ -1,7 +1,7 @@
 #!/bin/bash
 # usage: seed_chain.sh <id> -- runs all jobs for that id from /tmp/seed_jobs2.txt sequentially
 ID=$1
-grep "^$ID " ${SEED_JOBS:-/tmp/seed_jobs2.txt} | while read -r line; do
+grep "^$ID " ${SEED_JOBFILE:-/tmp/seed_jobs2.txt} | while read -r line; do
   /verif/tools/seed_eval2.sh $line > /verif/out/seed_chain_$ID.log 2>&1
 done
 echo "chain $ID done"
